@@ -701,11 +701,26 @@ fn count_sep(out: &[u8], sep: &[u8]) -> usize {
 
 fn c03(g: &Group, obs: &[Obs]) -> Option<String> {
     for (c, o) in g.cases.iter().zip(obs) {
-        let Some(src) = c.sources.first() else { continue };
-        if c.sources.len() != 1 || src.name.is_some() || c.rerr.is_some() || c.wfail.is_some() || c.endless.is_some() {
+        if c.sources.is_empty() || c.rerr.is_some() || c.wfail.is_some() || c.endless.is_some() {
             continue;
         }
-        let Some(inputs) = parse_stream(&src.bytes) else { continue };
+        // one standard input, or input files only (their values in order: files are read one after the other)
+        let single_stdin = c.sources.len() == 1 && c.sources[0].name.is_none();
+        let all_files = c.sources.iter().all(|s| s.name.is_some());
+        if !(single_stdin || all_files) {
+            continue;
+        }
+        let mut inputs: Vec<V> = vec![];
+        let mut clean = true;
+        for s in &c.sources {
+            match parse_stream(&s.bytes) {
+                Some(vs) => inputs.extend(vs),
+                None => clean = false,
+            }
+        }
+        if !clean {
+            continue;
+        }
         let want = match reference_pipeline(&c.spec, &inputs) {
             Ok(w) => w,
             Err(Unsupported(why)) => {
